@@ -112,6 +112,9 @@ class Gen:
             a, b = assoc_of
             feats.append('      [Key]\n   %s REF Left;' % a)
             feats.append('      [Key]\n   %s REF Right;' % b)
+            if r.random() < 0.2:
+                feats.append('   %s REF Opt = NULL;' % a)
+                props.append(('Opt', 'ref:' + a, False))
             props += [('Left', 'ref:' + a, False), ('Right', 'ref:' + b,
                                                     False)]
         elif not sup:
@@ -139,8 +142,12 @@ class Gen:
                 r.choice(['uint32', 'string', 'boolean']), self.uid(),
                 ', '.join(params)))
         head = ''
+        if r.random() < 0.3:
+            head = r.choice(['// a comment\n', '/* one line */\n',
+                             '/* a comment\n   over\n   three lines */\n',
+                             '/*\n\n*/ '])
         if cq:
-            head = '   [%s]\n' % ',\n    '.join(cq)
+            head += '   [%s]\n' % ',\n    '.join(cq)
         head += 'class %s' % name
         if sup:
             head += ' : %s' % sup
@@ -165,7 +172,8 @@ class Gen:
         lines = []
         for pn, t, arr in c['props']:
             if t.startswith('ref:'):
-                lines.append('   %s = %s;' % (pn, refs[pn]))
+                if pn in (refs or {}):
+                    lines.append('   %s = %s;' % (pn, refs[pn]))
             elif t.startswith('emb:'):
                 if emb is not None:
                     lines.append('   %s = %s;' % (pn, emb))
@@ -228,7 +236,8 @@ BAD_VALUES = ['"text"', "'x'", '300', '-1', '99999999999999999999999999',
               '1e999', '0xGG', '09', '12b', 'true', 'NULL', '{1, 2}', '{}',
               '"20261301000000.000000+000"', '"not a date"', '1.5.5',
               '$nosuch', '"\\x"', '"\\q"', "''", "'ab'", '0x', '-', '+',
-              '18446744073709551616', '-9223372036854775809', '1e', '.']
+              '18446744073709551616', '-9223372036854775809', '1e', '.',
+              'xyz', '$nosuchalias', '"not a path"', '"A.k=1"']
 
 
 def damage(r, text, kind=None):
@@ -316,6 +325,7 @@ def damage(r, text, kind=None):
             toks[i] = (r.choice(['99999999999999999999999999', '1e999',
                                  '-99999999999999999999', '0x' + 'F' * 40,
                                  '1' * 70 + 'b', '0' + '7' * 50,
+                                 '9' * 5000, '0x' + 'A' * 6000,
                                  '300', '-129', '65536']), 'num')
             return join(toks), 'huge number %s' % toks[i][0][:12]
         kind = 'type_mismatch'
@@ -363,7 +373,7 @@ def damage(r, text, kind=None):
         return join(toks), 'random text inserted'
     if kind == 'odd_char':
         i = r.choice(idx)
-        ch = r.choice(['\x00', '\x01', '\u20ac', '\ufffe', '\x7f', '`', '@',
+        ch = r.choice(['\n\r\r\r@', '\r\r`', '\x00', '\x01', '\u20ac', '\ufffe', '\x7f', '`', '@',
                        '\\', '"', "'", '\r', '\x0c', '\u2028',
                        '\U0001F600'])
         t = toks[i][0]
